@@ -43,6 +43,27 @@ def loadedOf : Outcome Session → Option Loaded
   | .err e => some (.failed e)
   | .panic _ => none
 
+/-- The head of `NewMTProto`: which storage serves a `Config`.
+
+      if c.SessionStorage == nil {
+          if c.AuthKeyFile == "" { return nil, errors.New("AuthKeyFile is empty") }
+          c.SessionStorage = session.NewFromFile(c.AuthKeyFile)
+      }
+
+`Config`: "if SessionStorage is nil, AuthKeyFile is required, otherwise it will be ignored". -/
+inductive Chosen (σ : Type) where
+  /-- `Config.SessionStorage` as given -/
+  | given (s : σ)
+  /-- `session.NewFromFile(Config.AuthKeyFile)` -/
+  | file (p : Path)
+  /-- neither: no client -/
+  | none
+
+def chooseStorage {σ : Type} (storage : Option σ) (authKeyFile : Path) : Chosen σ :=
+  match storage with
+  | some s => .given s
+  | .none => if authKeyFile = [] then .none else .file authKeyFile
+
 /-- the token of the harness' session storage mode (`hsStore.Mode`) -/
 def loadedOfMode? : String → Option Loaded
   | "notfound" => some .notFound
